@@ -118,6 +118,26 @@ theorem internal_issuer_for_nonpublic (c : Config) (P : Params) (π : Orders) (d
 
 example : 2 ∈ certsOf exCfg exP Orders.id ∧ exP.pub 2 = false ∧ explicitPolicy exCfg 2 = false := by decide
 
+/-- names: 1 = "wiki.h.internal", 2 = "localhost", 3 = "*.h.internal" (matches name 1 only) -/
+def wildP : Params :=
+  { q := fun d => d == 1 || d == 2 || d == 3, pub := fun _ => false, ip := fun _ => false,
+    internal := fun _ => true, loaded := fun _ => false, ts := fun _ => false,
+    mw := fun a b => a == b || (a == 1 && b == 3) }
+
+/-- the user has a policy for the wildcard `*.h.internal` with the public ACME issuer; the
+    server names `wiki.h.internal` (covered by it) and `localhost` (not covered) -/
+def wildCfg : Config :=
+  ⟨0, 0, [⟨[exTcp 443], false, false, false, false, 0, [], [], [⟨[[1]]⟩, ⟨[[2]]⟩]⟩],
+   [⟨[3], [Issuer.acme], 0⟩], none⟩
+
+/-- the instance of `internal_issuer_for_nonpublic` the seeded change
+    `C11-internal-policy-after-user-wildcard` breaks: the implicit internal policy is placed in
+    front of the user's partially covering wildcard policy, so the covered name resolves to it -/
+example : 1 ∈ certsOf wildCfg wildP Orders.id ∧ wildP.pub 1 = false ∧ explicitPolicy wildCfg 1 = false ∧
+    policiesOf wildCfg wildP Orders.id =
+      [⟨[1, 2], [Issuer.internal], 0⟩, ⟨[3], [Issuer.acme], 0⟩, ⟨[], [Issuer.acme], 0⟩] ∧
+    policyFor wildP 1 (policiesOf wildCfg wildP Orders.id) = some ⟨[1, 2], [Issuer.internal], 0⟩ := by decide
+
 /-! ### servers confined to the HTTP port (or disabled) -/
 
 /-- **HTTP-only servers get neither.** A server that is disabled or listens only on the HTTP
